@@ -56,24 +56,28 @@ where
             // nothing has been delivered yet
             return None;
         }
+        // the number of samples actually held (fewer than `window_len` while warming up)
+        let n = T::from(self.q_vals.len()).expect("can convert");
         let mut sx = T::zero();
-        let mut sy = T::zero();
+        for v in self.q_vals.iter() {
+            sx = sx + *v;
+        }
+        let mean_x = sx / n;
+        let mean_y = (n - T::one()) / T::from(2.0).expect("can convert");
+
+        // centred sums: `n * sxx - sx^2` cancels when the window's offset is large against its spread
         let mut sxx = T::zero();
         let mut sxy = T::zero();
         let mut syy = T::zero();
-
         for (i, v) in self.q_vals.iter().enumerate() {
-            let count = T::from(i).expect("can convert");
-            sx = sx + *v;
-            sy = sy + count;
-            sxx = sxx + v.powi(2);
-            sxy = sxy + *v * count;
-            syy = syy + count.powi(2);
+            let dx = *v - mean_x;
+            let dy = T::from(i).expect("can convert") - mean_y;
+            sxx = sxx + dx * dx;
+            sxy = sxy + dx * dy;
+            syy = syy + dy * dy;
         }
-        let window_len = T::from(self.window_len).expect("Can convert");
-        if window_len * sxx - sx.powi(2) > T::zero() && window_len * syy - sy.powi(2) > T::zero() {
-            let out = (window_len * sxy - sx * sy)
-                / ((window_len * sxx - sx.powi(2)) * (window_len * syy - sy.powi(2))).sqrt();
+        if sxx > T::zero() && syy > T::zero() {
+            let out = sxy / (sxx * syy).sqrt();
             debug_assert!(out.is_finite(), "value must be finite");
             return Some(out);
         }
